@@ -69,33 +69,77 @@ theorem markers_wf : MISSING < EXTRA ∧ EXTRA = 2 ^ 31 ∧ LAST = 2 ^ 31 ∧ Ge
   decide
 
 open Dulwich.CommitGraphFmt in
-/-- FULL statement (false for the code as it is, see the counterexamples): the reader of the written table
-returns every commit's full parent list. -/
-def CommitGraphParentsRoundtripStatement : Prop :=
-  ∀ (es : List (Bytes × List Bytes)) (i : Nat) (e : Bytes × List Bytes),
-    es.length < MISSING → es[i]? = some e → roundTripParents es i = some (.ok e.2)
-
-open Dulwich.CommitGraphFmt in
-/-- PROVED part: at most two parents, all of them among the written commits. -/
-theorem commit_graph_parents_roundtrip_partial (es : List (Bytes × List Bytes)) (i : Nat)
-    (e : Bytes × List Bytes) (hn : es.length < MISSING) (hi : es[i]? = some e)
-    (h2 : e.2.length ≤ 2) (hin : ∀ p ∈ e.2, p ∈ es.map (·.1)) :
+/-- FULL theorem (since the writer emits the EDGE chunk): for a set of commits that contains all parents of its
+members — what `generate_commit_graph` produces, see `generate_keeps_closed_set` — the reader of the written
+file returns EVERY commit's full parent list, whatever the number of parents. -/
+theorem commit_graph_parents_roundtrip (es : List (Bytes × List Bytes)) (i : Nat) (e : Bytes × List Bytes)
+    (hn : es.length < MISSING) (hc : Closed es) (hi : es[i]? = some e) :
     roundTripParents es i = some (.ok e.2) :=
-  roundTripParents_closed es i e hn hi h2 hin
+  roundTrip_closed es i e hn hc hi
 
 open Dulwich.CommitGraphFmt in
-example : roundTripParents [([1], []), ([2], [[1]]), ([3], [[2], [1]])] 2 = some (.ok [[2], [1]]) := by decide
+example : roundTripParents [([1], []), ([2], []), ([3], []), ([4], [[1], [2], [3]]), ([5], [[4], [3], [2], [1]])] 4
+    = some (.ok [[4], [3], [2], [1]]) := by decide
 
 open Dulwich.CommitGraphFmt in
-/-- octopus merge: only the first two parents survive -/
-theorem octopus_counterexample :
-    roundTripParents [([1], []), ([2], []), ([3], []), ([4], [[1], [2], [3]])] 3 = some (.ok [[1], [2]]) := by
+/-- a set that lacks a parent of one of its members is not written at all (`ValueError`): there is no file that
+could answer with a shortened list -/
+theorem commit_graph_open_set_refused (es : List (Bytes × List Bytes)) (i : Nat) (hc : ¬ Closed es) :
+    roundTripParents es i = none :=
+  roundTrip_open es i hc
+
+open Dulwich.CommitGraphFmt in
+/-- THE soundness statement for the file as a cache: every answer the graph gives equals the real parent list
+(for any set of commits whatsoever — either nothing is written, or everything read back is right). -/
+theorem commit_graph_answers_are_real (es : List (Bytes × List Bytes)) (i : Nat) (r : Except Err (List Bytes))
+    (hn : es.length < MISSING) (h : roundTripParents es i = some r) :
+    ∃ e, es[i]? = some e ∧ r = .ok e.2 := by
+  by_cases hc : Closed es
+  · cases hi : es[i]? with
+    | none =>
+      -- no such position: the writer produced one slot per entry, so there is no slot either
+      exfalso
+      unfold roundTripParents at h
+      cases hok : encodeAll (es.map (·.1)) (es.map (·.2)) 0 with
+      | error _ => simp [hok] at h
+      | ok t =>
+        obtain ⟨slots, edges⟩ := t
+        have hl := encodeAll_length _ _ 0 slots edges hok
+        have : slots[i]? = none := by
+          rw [List.getElem?_eq_none_iff]
+          have := List.getElem?_eq_none_iff.mp hi
+          simp at hl; omega
+        simp [hok, this] at h
+    | some e =>
+      have := roundTrip_closed es i e hn hc hi
+      rw [this] at h
+      exact ⟨e, rfl, (Option.some.inj h).symm⟩
+  · rw [roundTrip_open es i hc] at h; cases h
+
+open Dulwich.CommitGraphFmt in
+/-- `generate_commit_graph` keeps a closed subset of the requested commits, each with its own parent list -/
+theorem generate_keeps_closed_set (es : List (Bytes × List Bytes)) :
+    Closed (closeEntries es.length es) ∧ ∀ e ∈ closeEntries es.length es, e ∈ es :=
+  ⟨(closedB_iff _).mp (closeEntries_closed es.length es (Nat.le_refl _)), closeEntries_sub es.length es⟩
+
+open Dulwich.CommitGraphFmt in
+/-- tips without their history (`write_commit_graph(reachable=False)`): 3 ← 2 ← (1 outside) is left out
+entirely, the independent root 7 and its child 8 stay -/
+example : (closeEntries 4 [([3], [[2]]), ([2], [[1]]), ([7], []), ([8], [[7]])]).map (·.1) = [[7], [8]] := by decide
+
+open Dulwich.CommitGraphFmt in
+/-- REGRESSION WITNESS on the writer as it was before the repair: an octopus merge kept only its first two
+parents (reproduced on the real code at the time: corpus/C14/octopus.json, finding F-C14-octopus) -/
+theorem octopus_counterexample_old :
+    roundTripParentsOld [([1], []), ([2], []), ([3], []), ([4], [[1], [2], [3]])] 3 = some (.ok [[1], [2]]) ∧
+    roundTripParents [([1], []), ([2], []), ([3], []), ([4], [[1], [2], [3]])] 3 = some (.ok [[1], [2], [3]]) := by
   decide
 
 open Dulwich.CommitGraphFmt in
-/-- parent outside the written set: mapped to GRAPH_PARENT_MISSING by the writer, dropped by the reader -/
-theorem open_set_counterexample :
-    roundTripParents [([3], [[2]])] 0 = some (.ok []) := by
+/-- REGRESSION WITNESS on the old writer: a parent outside the written set was mapped to GRAPH_PARENT_MISSING and
+dropped by the reader (corpus/C14/open-set.json, finding F-C14-open-set); now nothing is written -/
+theorem open_set_counterexample_old :
+    roundTripParentsOld [([3], [[2]])] 0 = some (.ok []) ∧ roundTripParents [([3], [[2]])] 0 = none := by
   decide
 
 open Dulwich.CommitGraphFmt in
@@ -114,12 +158,6 @@ open Dulwich.CommitGraphFmt in
 example : decodeParents [[1], [2], [3], [4]] (some [9, 1, 2 + LAST]) 0 (EXTRA + 1) = .ok [[1], [2], [3]] := by
   decide
 
-theorem commit_graph_roundtrip_statement_false : ¬ CommitGraphParentsRoundtripStatement := by
-  intro h
-  have := h [([3], [[2]])] 0 ([3], [[2]]) (by decide) rfl
-  rw [open_set_counterexample] at this
-  simp at this
-
 /-! ## 4. multi-pack-index consumers -/
 
 /-- `get_raw`: transparent as soon as packs are honest (an object found in a pack is the object the plain
@@ -136,18 +174,24 @@ theorem midx_get_raw_transparent {Oid Pack Obj : Type} (midx : Oid → Option Pa
     | none => simp [getRawVia, hm, hp]
     | some x => simp [getRawVia, hm, hp, h p o x hp]
 
-/-- `contains_packed`: transparent only when every MIDX entry is backed by the store … -/
-theorem midx_contains_transparent_partial {Oid Pack : Type} (midx : Oid → Option Pack) (base : Oid → Bool)
-    (h : ∀ o p, midx o = some p → base o = true) : containsVia midx base = base := by
+/-- `contains_packed` (FULL, since it checks the named pack like `get_raw` does): transparent as soon as packs are
+honest — a stale or foreign MIDX entry whose pack is gone, or no longer has the object, falls back. -/
+theorem midx_contains_transparent {Oid Pack : Type} (midx : Oid → Option Pack) (packHas : Pack → Oid → Bool)
+    (base : Oid → Bool) (h : ∀ p o, packHas p o = true → base o = true) :
+    containsVia midx packHas base = base := by
   funext o
   cases hm : midx o with
   | none => simp [containsVia, hm]
-  | some p => simp [containsVia, hm, h o p hm]
+  | some p =>
+    cases hp : packHas p o with
+    | false => simp [containsVia, hm, hp]
+    | true => simp [containsVia, hm, hp, h p o hp]
 
-/-- … and not otherwise: a stale entry (pack repacked / pruned away after the MIDX was written) is trusted
-(confirmed on the real code: class `midx-entry-trusted-without-pack`) -/
-theorem midx_stale_counterexample :
-    containsVia (fun o : Nat => if o = 7 then some 0 else none) (fun _ => false) 7 = true ∧
+/-- REGRESSION WITNESS on `contains_packed` as it was before the repair: an entry naming a vanished pack was
+trusted (corpus/C14/midx-stale.json, finding F-C14-midx-stale); the repaired lookup falls back -/
+theorem midx_stale_counterexample_old :
+    containsViaOld (fun o : Nat => if o = 7 then some 0 else none) (fun _ => false) 7 = true ∧
+    containsVia (fun o : Nat => if o = 7 then some 0 else none) (fun (_ : Nat) _ => false) (fun _ => false) 7 = false ∧
     getRawVia (fun o : Nat => if o = 7 then some 0 else none) (fun (_ : Nat) _ => (none : Option Nat)) (fun _ => none) 7 = none := by
   decide
 
